@@ -2,164 +2,282 @@ import BppProofs.Lemmas.Range
 /-!
 # C20 — range collections behave as sets of points   (src/Bpp/Numeric/Range.h)
 
-Property theorems only; helper lemmas are in `Lemmas/Range.lean`.
-Universe: integer end points `≥ 0` (the property's universe).  With negative
+Property theorems only; helper lemmas are in `Lemmas/Range.lean`.  Everything in this file is
+proved **once, for every coordinate type** that is a decidable linear order with a constant `0`
+(`Std.IsLinearOrder`, `Std.LawfulOrderLT`), `std::min`/`std::max` (`MinMaxLaws`) and, for the
+shifts only, group laws of `+`/`-` (`ShiftLaws`).  `Props/C20Inst.lean` instantiates the theorems
+at `Int` (`int`), `UInt32` (`unsigned`, arithmetic modulo 2^32) and `Rat` (`double`).
+
+Universe: end points `≥ 0` (the property's universe; automatic for `unsigned`).  With negative
 coordinates `sliceWith`'s reset to `[0,0[` makes the comparator inconsistent
-(`comparator_inconsistent_negative` below is the witness), which is outside the
+(`C20.comparator_inconsistent_negative` in `C20Inst.lean` is the witness), which is outside the
 property's quantifier.
 -/
+set_option linter.unusedSectionVars false
 namespace Bpp.C20
 open Bpp Bpp.Range Bpp.MultiRange
 
-/-! ## Range: predicates, expansion, slicing, shifting -/
+section
+variable {α : Type} [LE α] [LT α] [DecidableLE α] [DecidableLT α] [DecidableEq α] [OfNat α 0]
+  [Std.IsLinearOrder α] [Std.LawfulOrderLT α]
 
-theorem make_wf (a b : Int) : (Range.make a b).b ≤ (Range.make a b).e ∧
-    (Range.make a b).b = min a b ∧ (Range.make a b).e = max a b := by
-  dsimp only [Range.make]; omega
+/-! ## Range: constructor, comparison operators -/
+
+theorem make_wf [Min α] [Max α] [MinMaxLaws α] (a b : α) :
+    (Range.make a b).b ≤ (Range.make a b).e ∧
+    (Range.make a b).b = min a b ∧ (Range.make a b).e = max a b ∧
+    ((Range.make a b).b = a ∧ (Range.make a b).e = b ∨ (Range.make a b).b = b ∧ (Range.make a b).e = a) := by
+  simp only [Range.make, MinMaxLaws.min_def, MinMaxLaws.max_def]; grind
 
 /-- reversed arguments give the same range -/
-theorem make_comm (a b : Int) : Range.make a b = Range.make b a := by
-  simp only [Range.make, Range.mk.injEq]; omega
+theorem make_comm [Min α] [Max α] [MinMaxLaws α] (a b : α) : Range.make a b = Range.make b a := by
+  simp only [Range.make, Range.mk.injEq, MinMaxLaws.min_def, MinMaxLaws.max_def]; grind
 
-theorem isEmpty_iff (x : Range) (hx : x.b ≤ x.e) : x.isEmpty = true ↔ ∀ p, ¬ mem p x := by
+/-- `Range()` is the empty range `[0,0[`; `Range(a)` is `[0,a[` in the universe `a ≥ 0` -/
+theorem make_default [Min α] [Max α] [MinMaxLaws α] :
+    (Range.default : Range α) = ⟨0, 0⟩ ∧ (Range.default : Range α).isEmpty = true ∧
+    ∀ a : α, 0 ≤ a → Range.make1 a = ⟨0, a⟩ := by
+  simp only [Range.default, Range.make1, Range.make, Range.isEmpty, Range.mk.injEq,
+    MinMaxLaws.min_def, MinMaxLaws.max_def]; grind
+
+/-- `operator==` is equality of ranges, `operator!=` its negation -/
+theorem eq_ne_spec (x r : Range α) : (x.eq r = true ↔ x = r) ∧ x.ne r = !x.eq r := by
+  cases x; cases r
+  simp only [Range.eq, Range.ne, Range.mk.injEq]
+  grind
+
+/-- the strict-weak-order axioms of a comparator at three elements: irreflexive, asymmetric,
+transitive, and incomparability is transitive -/
+def StrictWeakAt (x y z : Range α) : Prop :=
+  x.lt x = false ∧ (x.lt y = true → y.lt x = false) ∧
+  (x.lt y = true → y.lt z = true → x.lt z = true) ∧
+  (x.lt y = false → y.lt x = false → y.lt z = false → z.lt y = false →
+    x.lt z = false ∧ z.lt x = false)
+
+/-- `operator<` (`begin < r.begin || end < r.end`) is irreflexive, and on ranges that are
+well-formed and pairwise disjoint — what `clean_` sorts — it is a strict weak order, so the result
+of any correct `std::sort` is determined (**comparator_consistent**) -/
+theorem comparator_consistent (x y z : Range α) (hx : x.b ≤ x.e) (hy : y.b ≤ y.e) (hz : z.b ≤ z.e)
+    (hxy : Disj x y) (hyz : Disj y z) (hxz : Disj x z) : StrictWeakAt x y z := by
+  simp only [Disj, StrictWeakAt] at *
+  simp only [Range.lt, Bool.or_eq_true, Bool.or_eq_false_iff, decide_eq_true_eq, decide_eq_false_iff_not]
+  grind
+
+/-- two ranges that neither is "less" than the other under the comparator and that are disjoint
+and non-empty are equal: the sorted order is total on what a multi-range stores -/
+theorem comparator_total (x y : Range α) (hx : x.b < x.e) (hy : y.b < y.e) (hxy : Disj x y) :
+    x.lt y = true ∨ y.lt x = true := by
+  simp only [Disj] at *
+  simp only [Range.lt, Bool.or_eq_true, decide_eq_true_eq]
+  grind
+
+/-! ## Range: predicates, expansion, slicing, shifting -/
+
+theorem isEmpty_iff (x : Range α) (hx : x.b ≤ x.e) : x.isEmpty = true ↔ ∀ p, ¬ mem p x := by
   rw [isEmpty_eq]; unfold mem
   constructor
-  · intro h p; omega
-  · intro h; have := h x.b; omega
+  · intro h p; grind
+  · intro h; have := h x.b; grind
 
 /-- two non-empty ranges overlap iff they share a point -/
-theorem overlap_iff (x r : Range) (hx : x.b < x.e) (hr : r.b < r.e) :
+theorem overlap_iff (x r : Range α) (hx : x.b < x.e) (hr : r.b < r.e) :
     x.overlap r = true ↔ ∃ p, mem p x ∧ mem p r := by
   rw [overlap_eq]; unfold mem
   constructor
   · intro h
-    refine ⟨max x.b r.b, ?_⟩; omega
-  · rintro ⟨p, hp⟩; omega
+    rcases Std.le_total (a := x.b) (b := r.b) with h1 | h1
+    · exact ⟨r.b, by grind⟩
+    · exact ⟨x.b, by grind⟩
+  · rintro ⟨p, hp⟩; grind
 
 /-- for an empty operand the code reads it as the position `b`: it "overlaps" a range iff it lies
 strictly inside (stated outright so that the degenerate case is not hidden) -/
-theorem overlap_empty (x r : Range) (hr : r.b = r.e) :
+theorem overlap_empty (x r : Range α) (hr : r.b = r.e) :
     x.overlap r = true ↔ (x.b < r.b ∧ r.b < x.e) := by
-  rw [overlap_eq]; omega
+  rw [overlap_eq]; grind
 
 /-- containment of a non-empty range is set inclusion -/
-theorem contains_iff (x r : Range) (hr : r.b < r.e) :
+theorem contains_iff (x r : Range α) (hr : r.b < r.e) :
     x.contains r = true ↔ ∀ p, mem p r → mem p x := by
   rw [contains_eq]; unfold mem
   constructor
-  · intro h p hp; omega
+  · intro h p hp; grind
   · intro h
-    have h1 := h r.b (by omega)
-    have h2 := h (r.e - 1) (by omega)
-    omega
+    have h1 := h r.b (by grind)
+    refine ⟨h1.1, ?_⟩
+    apply Classical.byContradiction
+    intro hc
+    have h2 := h x.e (by grind)
+    grind
 
-theorem contains_endpoints (x r : Range) : x.contains r = true ↔ (x.b ≤ r.b ∧ r.e ≤ x.e) := by
+theorem contains_endpoints (x r : Range α) : x.contains r = true ↔ (x.b ≤ r.b ∧ r.e ≤ x.e) := by
   simp [Range.contains]
 
-theorem contiguous_iff (x r : Range) : x.isContiguous r = true ↔ (r.b = x.e ∨ r.e = x.b) := by
+theorem contiguous_iff (x r : Range α) : x.isContiguous r = true ↔ (r.b = x.e ∨ r.e = x.b) := by
   simp [Range.isContiguous]
 
+/-- what the predicates of `Range` mean in interval arithmetic on half-open intervals -/
+def RangePreds (x r : Range α) : Prop :=
+  (x.isEmpty = true ↔ ∀ p, ¬ mem p x) ∧
+  (x.b < x.e → r.b < r.e → (x.overlap r = true ↔ ∃ p, mem p x ∧ mem p r)) ∧
+  (r.b = r.e → (x.overlap r = true ↔ (x.b < r.b ∧ r.b < x.e))) ∧
+  (r.b < r.e → (x.contains r = true ↔ ∀ p, mem p r → mem p x)) ∧
+  (x.contains r = true ↔ (x.b ≤ r.b ∧ r.e ≤ x.e)) ∧
+  (x.isContiguous r = true ↔ (r.b = x.e ∨ r.e = x.b))
+
+/-- **range_preds**: `overlap`, `contains`, `isContiguous`, `isEmpty` agree with interval
+arithmetic on half-open intervals -/
+theorem range_preds (x r : Range α) (hx : x.b ≤ x.e) (_hr : r.b ≤ r.e) : RangePreds x r :=
+  ⟨isEmpty_iff x hx, overlap_iff x r, overlap_empty x r, contains_iff x r, contains_endpoints x r,
+    contiguous_iff x r⟩
+
 /-- slicing is intersection, for all (possibly empty) well-formed operands -/
-theorem slice_spec (x r : Range) (hx : x.b ≤ x.e) (hr : r.b ≤ r.e) :
+theorem slice_spec (x r : Range α) (hx : x.b ≤ x.e) (hr : r.b ≤ r.e) :
     (x.sliceWith r).b ≤ (x.sliceWith r).e ∧ ∀ p, mem p (x.sliceWith r) ↔ mem p x ∧ mem p r := by
-  unfold Range.sliceWith
-  split
-  · rename_i h; rw [overlap_eq] at h
-    constructor
-    · simp only; split <;> split <;> omega
-    · intro p; simp only [mem]; split <;> split <;> omega
-  · rename_i h; rw [overlap_eq] at h
-    constructor
-    · simp
-    · intro p; simp only [mem]; omega
+  simp only [Range.sliceWith, Range.overlap, mem]
+  grind
 
 /-- a slice is either the reset range `[0,0[` or lies inside the sliced range -/
-theorem slice_bounds (x r : Range) (hx : x.b ≤ x.e) :
+theorem slice_bounds (x r : Range α) (hx : x.b ≤ x.e) :
     x.sliceWith r = ⟨0, 0⟩ ∨
     (x.b ≤ (x.sliceWith r).b ∧ (x.sliceWith r).b ≤ (x.sliceWith r).e ∧ (x.sliceWith r).e ≤ x.e) := by
-  unfold Range.sliceWith
-  split
-  · right; dsimp only; split <;> split <;> omega
-  · left; rfl
+  simp only [Range.sliceWith, Range.overlap]
+  grind
+
+/-- the end points of a slice are end points of the operands, or the literal `0` -/
+theorem slice_endpoints (x r : Range α) :
+    ((x.sliceWith r).b = x.b ∨ (x.sliceWith r).b = r.b ∨ (x.sliceWith r).b = 0) ∧
+    ((x.sliceWith r).e = x.e ∨ (x.sliceWith r).e = r.e ∨ (x.sliceWith r).e = 0) := by
+  simp only [Range.sliceWith, Range.overlap]
+  grind
 
 /-- expansion is union whenever the union is an interval (overlapping or touching operands),
 and leaves the range unchanged otherwise -/
-theorem expand_spec (x r : Range) (hx : x.b ≤ x.e) (_hr : r.b ≤ r.e) :
+theorem expand_spec (x r : Range α) (hx : x.b ≤ x.e) (_hr : r.b ≤ r.e) :
     (r.b ≤ x.e ∧ x.b ≤ r.e → ∀ p, mem p (x.expandWith r) ↔ mem p x ∨ mem p r) ∧
-    (¬ (r.b ≤ x.e ∧ x.b ≤ r.e) → x.expandWith r = x) := by
-  constructor
-  · intro h p; simp only [Range.expandWith, mem]; split <;> split <;> omega
+    (¬ (r.b ≤ x.e ∧ x.b ≤ r.e) → x.expandWith r = x) ∧
+    ((x.expandWith r).b = x.b ∨ (x.expandWith r).b = r.b) ∧
+    ((x.expandWith r).e = x.e ∨ (x.expandWith r).e = r.e) := by
+  refine ⟨?_, ?_, ?_, ?_⟩
+  · intro h p; simp only [Range.expandWith, mem]; grind
   · intro h
-    have : x = ⟨x.b, x.e⟩ := rfl
-    rw [this]
-    simp only [Range.expandWith, Range.mk.injEq]; split <;> split <;> omega
+    cases x
+    simp only [Range.expandWith, Range.mk.injEq] at *; grind
+  · simp only [Range.expandWith]; grind
+  · simp only [Range.expandWith]; grind
 
-theorem shift_length (x : Range) (v : Int) :
-    (x.shift v).length = x.length ∧ (x.unshift v).length = x.length ∧ (x.shift v).unshift v = x := by
-  simp only [Range.shift, Range.unshift, Range.length]
-  refine ⟨by omega, by omega, ?_⟩
-  cases x; simp only [Range.mk.injEq]; omega
+def ShiftLength [Add α] [Sub α] (x : Range α) (v : α) : Prop :=
+  (x.shift v).length = x.length ∧ (x.unshift v).length = x.length ∧
+  (x.shift v).unshift v = x ∧ (x.unshift v).shift v = x
 
-theorem length_nonneg (a b : Int) : 0 ≤ (Range.make a b).length := by
-  simp only [Range.make, Range.length]; omega
+/-- **shift_length**: shifting preserves the length and `- v` undoes `+ v` — in every coordinate
+type whose `+`/`-` satisfy the group laws, so also for `unsigned` when the shift wraps -/
+theorem shift_length [Add α] [Sub α] [ShiftLaws α] (x : Range α) (v : α) : ShiftLength x v := by
+  cases x
+  simp only [ShiftLength, Range.shift, Range.unshift, Range.length, ShiftLaws.add_sub_add, ShiftLaws.sub_sub_sub,
+    ShiftLaws.add_sub_cancel, ShiftLaws.sub_add_cancel, and_self]
 
 /-! ## MultiRange: one step -/
 
 /-- the admissible arguments: built by the normalising constructor from non-negative end points -/
-def Arg (r : Range) : Prop := r.b ≤ r.e ∧ 0 ≤ r.b
+def Arg (r : Range α) : Prop := r.b ≤ r.e ∧ 0 ≤ r.b
 
-theorem make_arg (a b : Int) (ha : 0 ≤ a) (hb : 0 ≤ b) : Arg (Range.make a b) := by
-  simp only [Arg, Range.make]; omega
+theorem make_arg [Min α] [Max α] [MinMaxLaws α] (a b : α) (ha : 0 ≤ a) (hb : 0 ≤ b) :
+    Arg (Range.make a b) := by
+  simp only [Arg, Range.make, MinMaxLaws.min_def, MinMaxLaws.max_def]; grind
 
-theorem add_spec (m : List Range) (r : Range) (hm : MultiRange.Inv m) (hr : Arg r) :
-    MultiRange.Inv (addRange m r) ∧ ∀ p, pts (addRange m r) p ↔ pts m p ∨ mem p r := by
+/-- **component-level meaning of `addRange`**: the stored ranges that do not overlap `r` stay,
+and — unless nothing overlaps and `r` is empty — one new non-empty range appears whose points are
+exactly those of `r` and of all overlapped ranges -/
+def addK (K : Range α → Prop) (r : Range α) (y : Range α) : Prop :=
+  (K y ∧ y.overlap r = false) ∨
+  (y.b < y.e ∧ ∀ p, mem p y ↔ (mem p r ∨ ∃ x, K x ∧ x.overlap r = true ∧ mem p x))
+
+theorem add_spec (m : List (Range α)) (r : Range α) (hm : MultiRange.Inv m) (hr : Arg r) :
+    MultiRange.Inv (addRange m r) ∧ (∀ p, pts (addRange m r) p ↔ pts m p ∨ mem p r) ∧
+    (∀ y, y ∈ addRange m r ↔ addK (· ∈ m) r y) := by
   unfold addRange
   cases h : mergeInto r m with
   | none =>
     have hno := (mergeInto_none r m).mp h
-    have hpre : PreClean (m ++ [r]) := by
+    have hpre : PreClean (m ++ [r.clone]) := by
       constructor
       · intro x hx
         rcases List.mem_append.mp hx with e | e
-        · have := hm.1 x e; omega
+        · have := hm.1 x e; grind
         · simp at e; subst e; exact ⟨hr.2, hr.1⟩
       · rw [List.pairwise_append]
         refine ⟨hm.2.imp R.disj, by simp, ?_⟩
         intro x hx y hy
-        simp at hy; subst hy
-        have h1 := hno x hx
+        simp at hy; rw [hy]
+        have h1 := (overlap_false x r).mp (hno x hx)
         have h2 := hm.1 x hx
-        simp [Range.overlap] at h1
-        unfold Disj; unfold Arg at hr; omega
+        simp only [Disj, Arg] at *; grind
     have := clean_spec _ hpre
-    refine ⟨this.1, ?_⟩
-    intro p; rw [this.2 p]
-    simp only [pts, List.mem_append, List.mem_singleton]
-    constructor
-    · rintro ⟨x, (e | e), hp⟩
-      · exact Or.inl ⟨x, e, hp⟩
-      · subst e; exact Or.inr hp
-    · rintro (⟨x, e, hp⟩ | hp)
-      · exact ⟨x, Or.inl e, hp⟩
-      · exact ⟨r, Or.inr rfl, hp⟩
+    refine ⟨this.1, ?_, ?_⟩
+    · intro p; rw [this.2 p]
+      simp only [pts, List.mem_append, List.mem_singleton, clone_eq]
+      constructor
+      · rintro ⟨x, (e | e), hp⟩
+        · exact Or.inl ⟨x, e, hp⟩
+        · subst e; exact Or.inr hp
+      · rintro (⟨x, e, hp⟩ | hp)
+        · exact ⟨x, Or.inl e, hp⟩
+        · exact ⟨r, Or.inr rfl, hp⟩
+    · intro y
+      simp only [mem_clean, List.mem_append, List.mem_singleton, clone_eq, addK]
+      constructor
+      · rintro ⟨(e | e), hne⟩
+        · exact Or.inl ⟨e, hno y e⟩
+        · subst e
+          refine Or.inr ⟨by have := hr.1; grind, fun p => ⟨Or.inl, ?_⟩⟩
+          rintro (hp | ⟨x, hx, hxo, _⟩)
+          · exact hp
+          · rw [hno x hx] at hxo; cases hxo
+      · rintro (⟨e, _⟩ | ⟨hne, hp⟩)
+        · exact ⟨Or.inl e, by have := hm.1 y e; grind⟩
+        · have hpr : ∀ p, mem p y ↔ mem p r := by
+            intro p; rw [hp p]
+            constructor
+            · rintro (h1 | ⟨x, hx, hxo, _⟩)
+              · exact h1
+              · rw [hno x hx] at hxo; cases hxo
+            · exact Or.inl
+          exact ⟨Or.inr (ext_of_mem y r hne hpr), by grind⟩
   | some v =>
     obtain ⟨mg, l⟩ := v
-    have := mergeInto_some r hr m hm mg l h
-    have hc := clean_spec l this.1
-    refine ⟨hc.1, ?_⟩
-    intro p; rw [hc.2 p]; exact this.2.1 p
+    obtain ⟨M1, M2, _, M4, M5, M6⟩ := mergeInto_some r hr m hm mg l h
+    have hc := clean_spec l M1
+    refine ⟨hc.1, ?_, ?_⟩
+    · intro p; rw [hc.2 p]; exact M2 p
+    · intro y
+      rw [mem_clean, M4 y]
+      simp only [addK]
+      constructor
+      · rintro ⟨(⟨e, ho⟩ | e), hne⟩
+        · exact Or.inl ⟨e, ho⟩
+        · subst e; exact Or.inr ⟨M5, M6⟩
+      · rintro (⟨e, ho⟩ | ⟨hne, hp⟩)
+        · exact ⟨Or.inl ⟨e, ho⟩, by have := hm.1 y e; grind⟩
+        · refine ⟨Or.inr (ext_of_mem y mg hne ?_), by grind⟩
+          intro p; rw [hp p, M6 p]
 
-theorem restrict_spec (m : List Range) (r : Range) (hm : MultiRange.Inv m) (hr : Arg r) :
-    MultiRange.Inv (restrictTo m r) ∧ ∀ p, pts (restrictTo m r) p ↔ pts m p ∧ mem p r := by
+/-- **component-level meaning of `restrictTo`**: the non-empty intersections of the stored
+ranges with `r` -/
+def restrictK (K : Range α → Prop) (r : Range α) (y : Range α) : Prop :=
+  y.b < y.e ∧ ∃ x, K x ∧ ∀ p, mem p y ↔ mem p x ∧ mem p r
+
+theorem restrict_spec (m : List (Range α)) (r : Range α) (hm : MultiRange.Inv m) (hr : Arg r) :
+    MultiRange.Inv (restrictTo m r) ∧ (∀ p, pts (restrictTo m r) p ↔ pts m p ∧ mem p r) ∧
+    (∀ y, y ∈ restrictTo m r ↔ restrictK (· ∈ m) r y) := by
   unfold restrictTo
   have hslice : ∀ x ∈ m, 0 ≤ (x.sliceWith r).b ∧ (x.sliceWith r).b ≤ (x.sliceWith r).e := by
     intro x hx
     have h1 := hm.1 x hx
-    unfold Arg at hr
-    unfold Range.sliceWith
-    split
-    · simp only; split <;> split <;> omega
-    · simp
+    simp only [Arg] at hr
+    simp only [Range.sliceWith, Range.overlap]
+    have h0 : (0 : α) ≤ 0 := Std.le_refl _
+    grind
   have hpre : PreClean (m.map (·.sliceWith r)) := by
     constructor
     · intro y hy
@@ -171,97 +289,168 @@ theorem restrict_spec (m : List Range) (r : Range) (hm : MultiRange.Inv m) (hr :
       intro x y hx hy hxy
       have h1 := hm.1 x hx
       have h2 := hm.1 y hy
-      have bx := slice_bounds x r (by omega)
-      have bY := slice_bounds y r (by omega)
-      unfold Arg at hr
-      unfold R at hxy
-      unfold Disj
+      have bx := slice_bounds x r (by grind)
+      have bY := slice_bounds y r (by grind)
+      simp only [Arg] at hr
+      simp only [R] at hxy
+      simp only [Disj]
       rcases bx with e1 | e1 <;> rcases bY with e2 | e2
-      · rw [e1, e2]; simp
-      · rw [e1]; dsimp only; omega
-      · rw [e2]; dsimp only; omega
-      · omega
+      · rw [e1, e2]; exact Or.inl (Std.le_refl _)
+      · rw [e1]; grind
+      · rw [e2]; grind
+      · grind
   have hc := clean_spec _ hpre
-  refine ⟨hc.1, ?_⟩
-  intro p; rw [hc.2 p]
-  simp only [pts, List.mem_map]
-  constructor
-  · rintro ⟨y, ⟨x, hx, e⟩, hp⟩
-    subst e
-    have h1 := hm.1 x hx
-    have := (slice_spec x r (by omega) hr.1).2 p
-    exact ⟨⟨x, hx, (this.mp hp).1⟩, (this.mp hp).2⟩
-  · rintro ⟨⟨x, hx, hp⟩, hpr⟩
-    have h1 := hm.1 x hx
-    exact ⟨_, ⟨x, hx, rfl⟩, ((slice_spec x r (by omega) hr.1).2 p).mpr ⟨hp, hpr⟩⟩
+  refine ⟨hc.1, ?_, ?_⟩
+  · intro p; rw [hc.2 p]
+    simp only [pts, List.mem_map]
+    constructor
+    · rintro ⟨y, ⟨x, hx, e⟩, hp⟩
+      subst e
+      have h1 := hm.1 x hx
+      have := (slice_spec x r (by grind) hr.1).2 p
+      exact ⟨⟨x, hx, (this.mp hp).1⟩, (this.mp hp).2⟩
+    · rintro ⟨⟨x, hx, hp⟩, hpr⟩
+      have h1 := hm.1 x hx
+      exact ⟨_, ⟨x, hx, rfl⟩, ((slice_spec x r (by grind) hr.1).2 p).mpr ⟨hp, hpr⟩⟩
+  · intro y
+    simp only [mem_clean, List.mem_map, restrictK]
+    constructor
+    · rintro ⟨⟨x, hx, e⟩, hne⟩
+      subst e
+      have h1 := hm.1 x hx
+      have hs := slice_spec x r (by grind) hr.1
+      exact ⟨by grind, x, hx, hs.2⟩
+    · rintro ⟨hne, x, hx, hp⟩
+      have h1 := hm.1 x hx
+      have hs := slice_spec x r (by grind) hr.1
+      have : y = x.sliceWith r := ext_of_mem y _ hne (fun p => by rw [hp p, hs.2 p])
+      exact ⟨⟨x, hx, this.symm⟩, by grind⟩
 
-/-- `filterWithin` keeps exactly the stored ranges that lie within `r` -/
-theorem filter_spec (m : List Range) (r : Range) (hm : MultiRange.Inv m) :
-    MultiRange.Inv (filterWithin m r) ∧ (∀ x, x ∈ filterWithin m r ↔ x ∈ m ∧ r.b ≤ x.b ∧ x.e ≤ r.e) ∧
-    ∀ p, pts (filterWithin m r) p → pts m p ∧ mem p r := by
+/-- **component-level meaning of `filterWithin`**: keep exactly the stored ranges that lie
+within `r` -/
+def filterK (K : Range α → Prop) (r : Range α) (y : Range α) : Prop :=
+  K y ∧ r.b ≤ y.b ∧ y.e ≤ r.e
+
+/-- `filterWithin` keeps exactly the stored ranges that lie within `r`; on points: a point
+survives iff the stored range it belongs to is a subset of `r` -/
+theorem filter_spec (m : List (Range α)) (r : Range α) (hm : MultiRange.Inv m) :
+    MultiRange.Inv (filterWithin m r) ∧ (∀ y, y ∈ filterWithin m r ↔ filterK (· ∈ m) r y) ∧
+    (∀ p, pts (filterWithin m r) p ↔ ∃ x ∈ m, mem p x ∧ ∀ q, mem q x → mem q r) := by
   unfold filterWithin
   refine ⟨⟨fun x hx => hm.1 x (List.mem_filter.mp hx).1, hm.2.filter _⟩, ?_, ?_⟩
-  · intro x; simp [List.mem_filter, Range.contains]
-  · rintro p ⟨x, hx, hp⟩
-    rw [List.mem_filter, contains_eq] at hx
-    refine ⟨⟨x, hx.1, hp⟩, ?_⟩
-    unfold mem at *; omega
+  · intro x; simp [List.mem_filter, Range.contains, filterK]
+  · intro p
+    simp only [pts, List.mem_filter]
+    constructor
+    · rintro ⟨x, ⟨hx, hc⟩, hp⟩
+      exact ⟨x, hx, hp, (contains_iff r x (hm.1 x hx).2).mp hc⟩
+    · rintro ⟨x, hx, hp, hq⟩
+      exact ⟨x, ⟨hx, (contains_iff r x (hm.1 x hx).2).mpr hq⟩, hp⟩
 
-theorem inv_nil : MultiRange.Inv [] := ⟨(fun _ hx => nomatch hx), List.Pairwise.nil⟩
+theorem inv_nil : MultiRange.Inv ([] : List (Range α)) :=
+  ⟨(fun _ hx => nomatch hx), List.Pairwise.nil⟩
 
 /-! ## MultiRange: every history -/
 
-inductive Op where
-  | add (a b : Int)
-  | restrict (a b : Int)
-  | filter (a b : Int)
+variable [Min α] [Max α] [MinMaxLaws α]
+
+inductive Op (α : Type) where
+  | add (a b : α)
+  | restrict (a b : α)
+  | filter (a b : α)
   | clear
 
 /-- end points in the non-negative universe -/
-def Op.ok : Op → Prop
+def Op.ok : Op α → Prop
   | .add a b | .restrict a b | .filter a b => 0 ≤ a ∧ 0 ≤ b
   | .clear => True
 
-def step (m : List Range) : Op → List Range
+def step (m : List (Range α)) : Op α → List (Range α)
   | .add a b => addRange m (Range.make a b)
   | .restrict a b => restrictTo m (Range.make a b)
   | .filter a b => filterWithin m (Range.make a b)
-  | .clear => []
+  | .clear => RangeCollection.clear m
 
-def run (ops : List Op) : List Range := ops.foldl step []
+def run (ops : List (Op α)) : List (Range α) := ops.foldl step []
+
+theorem step_inv (m : List (Range α)) (hm : MultiRange.Inv m) (o : Op α) (ho : o.ok) :
+    MultiRange.Inv (step m o) := by
+  cases o with
+  | add a b => exact (add_spec m _ hm (make_arg a b ho.1 ho.2)).1
+  | restrict a b => exact (restrict_spec m _ hm (make_arg a b ho.1 ho.2)).1
+  | filter a b => exact (filter_spec m _ hm).1
+  | clear => exact inv_nil
 
 /-- **mr_inv**: after any history the stored ranges are non-empty, ascending and pairwise
 disjoint -/
-theorem mr_inv (ops : List Op) (hok : ∀ o ∈ ops, o.ok) : MultiRange.Inv (run ops) := by
+theorem mr_inv (ops : List (Op α)) (hok : ∀ o ∈ ops, o.ok) : MultiRange.Inv (run ops) := by
   suffices h : ∀ m, MultiRange.Inv m → MultiRange.Inv (ops.foldl step m) from h [] inv_nil
   induction ops with
   | nil => intro m hm; exact hm
   | cons o os ih =>
     intro m hm
-    have ho := hok o (by simp)
-    apply ih (fun o' ho' => hok o' (by simp [ho']))
-    cases o with
-    | add a b => exact (add_spec m _ hm (make_arg a b ho.1 ho.2)).1
-    | restrict a b => exact (restrict_spec m _ hm (make_arg a b ho.1 ho.2)).1
-    | filter a b => exact (filter_spec m _ hm).1
-    | clear => exact inv_nil
+    exact ih (fun o' ho' => hok o' (by simp [ho'])) _ (step_inv m hm o (hok o (by simp)))
 
-/-- the reference semantics: a set of points, updated by union / intersection -/
-def specStep (S : Int → Prop) : Op → (Int → Prop)
-  | .add a b => fun p => S p ∨ (min a b ≤ p ∧ p < max a b)
-  | .restrict a b => fun p => S p ∧ (min a b ≤ p ∧ p < max a b)
-  | .filter _ _ => S          -- not a set-level operation; excluded below (see `filter_spec`)
+/-- the reference semantics on components: a set of ranges, updated declaratively -/
+def specStepK (K : Range α → Prop) : Op α → (Range α → Prop)
+  | .add a b => addK K (Range.make a b)
+  | .restrict a b => restrictK K (Range.make a b)
+  | .filter a b => filterK K (Range.make a b)
   | .clear => fun _ => False
 
-def Op.isFilter : Op → Bool
+theorem addK_congr (K K' : Range α → Prop) (h : ∀ y, K y ↔ K' y) (r y : Range α) :
+    addK K r y ↔ addK K' r y := by
+  have : K = K' := funext fun y => propext (h y)
+  rw [this]
+
+/-- **mr_refines**: for every history of add / restrict / **filter** / clear the set of stored
+ranges is exactly what the declarative component semantics yields; with `mr_inv` (ascending
+order) this determines the stored list completely (`mr_canonical`) -/
+theorem mr_refines (ops : List (Op α)) (hok : ∀ o ∈ ops, o.ok) :
+    ∀ y, y ∈ run ops ↔ ops.foldl specStepK (fun _ => False) y := by
+  suffices h : ∀ (m : List (Range α)) (K : Range α → Prop), MultiRange.Inv m → (∀ y, y ∈ m ↔ K y) →
+      ∀ y, y ∈ ops.foldl step m ↔ ops.foldl specStepK K y from
+    h [] _ inv_nil (by simp)
+  induction ops with
+  | nil => intro m K _ hK; exact hK
+  | cons o os ih =>
+    intro m K hm hK
+    have ho := hok o (by simp)
+    have hK' : (fun y => y ∈ m) = K := funext fun y => propext (hK y)
+    simp only [List.foldl_cons]
+    apply ih (fun o' ho' => hok o' (by simp [ho'])) _ _ (step_inv m hm o ho)
+    intro y
+    cases o with
+    | add a b => rw [← hK']; exact (add_spec m _ hm (make_arg a b ho.1 ho.2)).2.2 y
+    | restrict a b => rw [← hK']; exact (restrict_spec m _ hm (make_arg a b ho.1 ho.2)).2.2 y
+    | filter a b => rw [← hK']; exact (filter_spec m _ hm).2.1 y
+    | clear => simp [step, specStepK, RangeCollection.clear]
+
+/-- the stored list is the only ascending list of the component set: two implementations that
+both satisfy `mr_inv` and `mr_refines` return the same vector -/
+theorem mr_canonical (ops : List (Op α)) (hok : ∀ o ∈ ops, o.ok) (l : List (Range α))
+    (hl : MultiRange.Inv l) (h : ∀ y, y ∈ l ↔ ops.foldl specStepK (fun _ => False) y) :
+    l = run ops :=
+  sorted_ext l (run ops) hl (mr_inv ops hok) (fun y => by rw [h y, mr_refines ops hok y])
+
+/-- the reference semantics on points: a set of points, updated by union / intersection; a
+`filterWithin` is not a function of the point set alone (touching ranges are stored separately),
+its point-level meaning needs the components: `mr_denotes_all` -/
+def specStep (S : α → Prop) : Op α → (α → Prop)
+  | .add a b => fun p => S p ∨ (min a b ≤ p ∧ p < max a b)
+  | .restrict a b => fun p => S p ∧ (min a b ≤ p ∧ p < max a b)
+  | .filter _ _ => S
+  | .clear => fun _ => False
+
+def Op.isFilter : Op α → Bool
   | .filter _ _ => true
   | _ => false
 
 /-- **mr_denotes_from**: from any state satisfying the invariant (in particular any reachable
 state, also after a `filterWithin`), every continuation by add / restrict / clear denotes the
 set-level fold of unions and intersections applied to the points of that state -/
-theorem mr_denotes_from (ops : List Op) (hok : ∀ o ∈ ops, o.ok) (hnf : ∀ o ∈ ops, o.isFilter = false)
-    (m : List Range) (S : Int → Prop) (hm : MultiRange.Inv m) (hS : ∀ p, pts m p ↔ S p) :
+theorem mr_denotes_from (ops : List (Op α)) (hok : ∀ o ∈ ops, o.ok) (hnf : ∀ o ∈ ops, o.isFilter = false)
+    (m : List (Range α)) (S : α → Prop) (hm : MultiRange.Inv m) (hS : ∀ p, pts m p ↔ S p) :
     ∀ p, pts (ops.foldl step m) p ↔ ops.foldl specStep S p := by
   induction ops generalizing m S with
   | nil => exact hS
@@ -273,11 +462,11 @@ theorem mr_denotes_from (ops : List Op) (hok : ∀ o ∈ ops, o.ok) (hnf : ∀ o
     | add a b =>
       have := add_spec m _ hm (make_arg a b ho.1 ho.2)
       apply ih (fun o' ho' => hok o' (by simp [ho'])) (fun o' ho' => hnf o' (by simp [ho'])) _ _ this.1
-      intro p; show pts _ p ↔ _; rw [this.2 p, hS p]; simp [specStep, mem, Range.make]
+      intro p; show pts _ p ↔ _; rw [this.2.1 p, hS p]; simp [specStep, mem, Range.make]
     | restrict a b =>
       have := restrict_spec m _ hm (make_arg a b ho.1 ho.2)
       apply ih (fun o' ho' => hok o' (by simp [ho'])) (fun o' ho' => hnf o' (by simp [ho'])) _ _ this.1
-      intro p; show pts _ p ↔ _; rw [this.2 p, hS p]; simp [specStep, mem, Range.make]
+      intro p; show pts _ p ↔ _; rw [this.2.1 p, hS p]; simp [specStep, mem, Range.make]
     | filter a b => simp [Op.isFilter] at hf
     | clear =>
       apply ih (fun o' ho' => hok o' (by simp [ho'])) (fun o' ho' => hnf o' (by simp [ho'])) _ _ inv_nil
@@ -286,59 +475,314 @@ theorem mr_denotes_from (ops : List Op) (hok : ∀ o ∈ ops, o.ok) (hnf : ∀ o
 /-- **mr_denotes**: for every history of add / restrict / clear from the empty collection the
 stored ranges denote exactly the union of everything added, intersected with every restriction
 applied since -/
-theorem mr_denotes (ops : List Op) (hok : ∀ o ∈ ops, o.ok) (hnf : ∀ o ∈ ops, o.isFilter = false) :
+theorem mr_denotes (ops : List (Op α)) (hok : ∀ o ∈ ops, o.ok) (hnf : ∀ o ∈ ops, o.isFilter = false) :
     ∀ p, pts (run ops) p ↔ ops.foldl specStep (fun _ => False) p :=
   mr_denotes_from ops hok hnf [] _ inv_nil (by intro p; simp [pts])
 
-/-! ## the comparator handed to `std::sort` -/
+/-- **mr_denotes_all**: for every history, *including filters*, the points of the multi-range are
+the points of the components of the declarative semantics; a filter step keeps the points of
+exactly those components that are subsets of the window (`filter_spec`), and the history may go
+on with any operation afterwards -/
+theorem mr_denotes_all (ops : List (Op α)) (hok : ∀ o ∈ ops, o.ok) :
+    ∀ p, pts (run ops) p ↔ ∃ y, ops.foldl specStepK (fun _ => False) y ∧ mem p y := by
+  intro p
+  simp only [pts]
+  constructor
+  · rintro ⟨y, hy, hp⟩; exact ⟨y, (mr_refines ops hok y).mp hy, hp⟩
+  · rintro ⟨y, hy, hp⟩; exact ⟨y, (mr_refines ops hok y).mpr hy, hp⟩
 
-/-- on the lists `clean_` sorts (well-formed, pairwise disjoint ranges) the source comparator
-`begin < r.begin || end < r.end` is a strict weak order, so the result of any correct sort is
-determined -/
-theorem comparator_consistent (x y z : Range) (hx : x.b ≤ x.e) (hy : y.b ≤ y.e) (hz : z.b ≤ z.e)
-    (hxy : Disj x y) (hyz : Disj y z) (hxz : Disj x z) :
-    x.lt x = false ∧ (x.lt y = true → y.lt x = false) ∧
-    (x.lt y = true → y.lt z = true → x.lt z = true) ∧
-    (x.lt y = false → y.lt x = false → y.lt z = false → z.lt y = false →
-      x.lt z = false ∧ z.lt x = false) := by
-  unfold Disj at *
-  simp only [Range.lt, Bool.or_eq_true, Bool.or_eq_false_iff, decide_eq_true_eq, decide_eq_false_iff_not]
-  omega
+/-! ## no new coordinates: the stored end points come from the arguments (or are the literal 0) -/
 
-/-- outside the property's universe: with a negative coordinate, the `[0,0[` produced by
-`sliceWith` and the range `[-2,3[` are each "less" than the other -/
-theorem comparator_inconsistent_negative :
-    (⟨0, 0⟩ : Range).lt ⟨-2, 3⟩ = true ∧ (⟨-2, 3⟩ : Range).lt ⟨0, 0⟩ = true := by decide
+/-- the end points of all arguments of a history -/
+def Op.args : Op α → List α
+  | .add a b | .restrict a b | .filter a b => [a, b]
+  | .clear => []
+
+/-- **endpoints_closed**: the collection operations never compute a new coordinate: every stored
+begin / end is an end point of some argument of the history, or the literal `0` written by
+`sliceWith`.  (So no arithmetic overflow can occur in them, whatever the coordinate type: the
+only arithmetic of the header is `length()` and the shifts.) -/
+theorem endpoints_closed (P : α → Prop) (h0 : P 0) (ops : List (Op α))
+    (hops : ∀ o ∈ ops, ∀ a ∈ o.args, P a) : ∀ x ∈ run ops, P x.b ∧ P x.e := by
+  suffices h : ∀ m : List (Range α), (∀ x ∈ m, P x.b ∧ P x.e) → ∀ x ∈ ops.foldl step m, P x.b ∧ P x.e from
+    h [] (by simp)
+  have hexp : ∀ x r : Range α, (P x.b ∧ P x.e) → (P r.b ∧ P r.e) →
+      P (x.expandWith r).b ∧ P (x.expandWith r).e := by
+    intro x r hx hr
+    have := (expand_spec x r)
+    simp only [Range.expandWith]; grind
+  have hfold : ∀ (S : List (Range α)) (acc : Range α), (P acc.b ∧ P acc.e) → (∀ y ∈ S, P y.b ∧ P y.e) →
+      P (S.foldl Range.expandWith acc).b ∧ P (S.foldl Range.expandWith acc).e := by
+    intro S
+    induction S with
+    | nil => intro acc ha _; exact ha
+    | cons y ys ih =>
+      intro acc ha hS
+      exact ih _ (hexp acc y ha (hS y (by simp))) (fun z hz => hS z (by simp [hz]))
+  have hmerge : ∀ (r : Range α), (P r.b ∧ P r.e) → ∀ (m : List (Range α)), (∀ x ∈ m, P x.b ∧ P x.e) →
+      ∀ mg l, mergeInto r m = some (mg, l) → ∀ x ∈ l, P x.b ∧ P x.e := by
+    intro r hr m
+    induction m with
+    | nil => intro _ mg l h; simp [mergeInto] at h
+    | cons x xs ih =>
+      intro hm mg l h
+      unfold mergeInto at h
+      split at h
+      · simp only [Option.some.injEq, Prod.mk.injEq] at h
+        obtain ⟨_, hl⟩ := h
+        subst hl
+        intro y hy
+        rcases List.mem_cons.mp hy with e | e
+        · rw [e]
+          apply hfold _ _ (hexp x r (hm x (by simp)) hr)
+          intro z hz
+          simp only [List.mem_reverse, List.mem_filter] at hz
+          exact hm z (by simp [hz.1])
+        · simp only [List.mem_filter] at e
+          exact hm y (by simp [e.1])
+      · cases hrec : mergeInto r xs with
+        | none => rw [hrec] at h; cases h
+        | some v =>
+          obtain ⟨mg', l'⟩ := v
+          rw [hrec] at h
+          simp only [Option.some.injEq, Prod.mk.injEq] at h
+          obtain ⟨_, hl⟩ := h
+          subst hl
+          intro y hy
+          rcases List.mem_cons.mp hy with e | e
+          · subst e; exact hm y (by simp)
+          · exact ih (fun z hz => hm z (by simp [hz])) mg' l' hrec y e
+  induction ops with
+  | nil => intro m hm; exact hm
+  | cons o os ih =>
+    intro m hm
+    simp only [List.foldl_cons]
+    apply ih (fun o' ho' => hops o' (by simp [ho']))
+    have ho := hops o (by simp)
+    cases o with
+    | add a b =>
+      have hw := make_wf a b
+      have hr : P (Range.make a b).b ∧ P (Range.make a b).e := by
+        have ha := ho a (by simp [Op.args]); have hb := ho b (by simp [Op.args])
+        rcases hw.2.2.2 with h | h <;> rw [h.1, h.2] <;> simp [ha, hb]
+      intro x hx
+      simp only [step, addRange] at hx
+      cases hmi : mergeInto (Range.make a b) m with
+      | none =>
+        rw [hmi] at hx
+        simp only [mem_clean, List.mem_append, List.mem_singleton, clone_eq] at hx
+        rcases hx.1 with e | e
+        · exact hm x e
+        · rw [e]; exact hr
+      | some v =>
+        obtain ⟨mg, l⟩ := v
+        rw [hmi] at hx
+        simp only [mem_clean] at hx
+        exact hmerge _ hr m hm mg l hmi x hx.1
+    | restrict a b =>
+      have hw := make_wf a b
+      have hr : P (Range.make a b).b ∧ P (Range.make a b).e := by
+        have ha := ho a (by simp [Op.args]); have hb := ho b (by simp [Op.args])
+        rcases hw.2.2.2 with h | h <;> rw [h.1, h.2] <;> simp [ha, hb]
+      intro x hx
+      simp only [step, restrictTo, mem_clean, List.mem_map] at hx
+      obtain ⟨⟨y, hy, e⟩, _⟩ := hx
+      subst e
+      have hy' := hm y hy
+      have hs := slice_endpoints y (Range.make a b)
+      grind
+    | filter a b =>
+      intro x hx
+      simp only [step, filterWithin, List.mem_filter] at hx
+      exact hm x hx.1
+    | clear => intro x hx; simp [step, RangeCollection.clear] at hx
+
+/-! ## `getBounds`, `size`, `isEmpty`, `getRange`, `clear`, copies -/
+
+/-- **bounds_sorted**: on every state satisfying the invariant `getBounds` is the ascending list
+of all end points (each stored range contributes begin then end; equal neighbours only where two
+ranges touch), of length `2 * size` -/
+theorem bounds_sorted (m : List (Range α)) (hm : MultiRange.Inv m) :
+    (getBounds m).Pairwise (· ≤ ·) ∧ (getBounds m).length = 2 * RangeCollection.size m ∧
+    ∀ p, p ∈ getBounds m ↔ ∃ x ∈ m, p = x.b ∨ p = x.e := by
+  refine ⟨?_, ?_, ?_⟩
+  · induction m with
+    | nil => simp [getBounds]
+    | cons x xs ih =>
+      have hx := hm.1 x (by simp)
+      have hxs : MultiRange.Inv xs := ⟨fun y hy => hm.1 y (by simp [hy]), (List.pairwise_cons.mp hm.2).2⟩
+      have hR := (List.pairwise_cons.mp hm.2).1
+      have ih' := ih hxs
+      simp only [getBounds, List.flatMap_cons, List.cons_append, List.nil_append, List.pairwise_cons,
+        List.mem_cons, List.mem_flatMap, List.not_mem_nil, or_false] at ih' ⊢
+      refine ⟨?_, ?_, ih'⟩
+      · rintro p (e | ⟨y, hy, (e | e)⟩)
+        · grind
+        · have := hR y hy; have := hxs.1 y hy; simp only [R] at *; grind
+        · have := hR y hy; have := hxs.1 y hy; simp only [R] at *; grind
+      · rintro p ⟨y, hy, (e | e)⟩
+        · have := hR y hy; simp only [R] at *; grind
+        · have := hR y hy; have := hxs.1 y hy; simp only [R] at *; grind
+  · induction m with
+    | nil => simp [getBounds, RangeCollection.size]
+    | cons x xs ih =>
+      have hxs : MultiRange.Inv xs := ⟨fun y hy => hm.1 y (by simp [hy]), (List.pairwise_cons.mp hm.2).2⟩
+      have := ih hxs
+      simp only [getBounds, List.flatMap_cons, List.length_append, List.length_cons, List.length_nil,
+        RangeCollection.size] at this ⊢
+      omega
+  · intro p
+    simp only [getBounds, List.mem_flatMap, List.mem_cons, List.not_mem_nil, or_false]
+
+/-- `isEmpty` ⇔ `size = 0` ⇔ no point; `getRange(i)` is defined exactly for `i < size`; `clear`
+empties -/
+theorem collection_observers (m : List (Range α)) (hm : MultiRange.Inv m) :
+    (RangeCollection.isEmpty m = true ↔ RangeCollection.size m = 0) ∧
+    (RangeCollection.isEmpty m = true ↔ ∀ p, ¬ pts m p) ∧
+    (∀ i, (RangeCollection.getRange? m i).isSome ↔ i < RangeCollection.size m) ∧
+    (∀ i x, RangeCollection.getRange? m i = some x → x ∈ m) ∧
+    RangeCollection.size (RangeCollection.clear m) = 0 := by
+  refine ⟨by simp [RangeCollection.isEmpty, RangeCollection.size], ?_, ?_, ?_, rfl⟩
+  · cases m with
+    | nil => simp [RangeCollection.isEmpty, pts]
+    | cons x xs =>
+      simp only [RangeCollection.isEmpty, List.length_cons, Nat.add_eq_zero_iff, Nat.succ_ne_zero, and_false,
+        beq_iff_eq, false_iff, Classical.not_forall, Classical.not_not]
+      have := hm.1 x (by simp)
+      exact ⟨x.b, x, by simp, by simp only [mem]; grind⟩
+  · intro i; simp [RangeCollection.getRange?, RangeCollection.size]
+  · intro i x h; exact List.mem_of_getElem? h
+
+/-- **copy_deep**: the copy constructor and `operator=` produce a collection equal to the source,
+whatever the target held, and self-assignment leaves the object as it is (the unguarded code of
+round 1 emptied it: `findings/C20.json`); in the model collections are values, so a later
+operation on one of them cannot change the other (the tie checks this on the implementation) -/
+theorem copy_deep (tgt src : List (Range α)) :
+    RangeCollection.copy src = src ∧ RangeCollection.assign false tgt src = src ∧
+    RangeCollection.assign true tgt tgt = tgt := by
+  have : (Range.clone : Range α → Range α) = id := funext fun x => rfl
+  simp [RangeCollection.copy, RangeCollection.assign, RangeCollection.clear, this]
 
 /-! ## RangeSet -/
 
-theorem rangeset_add (s : List Range) (r : Range) :
+theorem rangeset_add (s : List (Range α)) (r : Range α) :
     RangeSet.addRange s r = if r.b = r.e then s else s ++ [r] := by
   simp [RangeSet.addRange, Range.isEmpty]
 
 /-- every range of the set is sliced individually and kept iff the slice is non-empty -/
-theorem rangeset_restrict (s : List Range) (r : Range) (y : Range) :
+theorem rangeset_restrict (s : List (Range α)) (r : Range α) (y : Range α) :
     y ∈ RangeSet.restrictTo s r ↔ ∃ x ∈ s, y = x.sliceWith r ∧ y.b ≠ y.e := by
   simp only [RangeSet.restrictTo, List.mem_filter, List.mem_map, Range.isEmpty]
   constructor
   · rintro ⟨⟨x, hx, e⟩, h⟩; exact ⟨x, hx, e.symm, by simpa using h⟩
   · rintro ⟨x, hx, e, h⟩; exact ⟨⟨x, hx, e.symm⟩, by simpa using h⟩
 
-theorem rangeset_restrict_length (s : List Range) (r : Range) :
+/-- order and multiplicity: the restricted set is the list of non-empty slices, in order -/
+theorem rangeset_restrict_list (s : List (Range α)) (r : Range α) :
+    RangeSet.restrictTo s r = (s.map (·.sliceWith r)).filter (fun y => decide (y.b ≠ y.e)) ∧
     (RangeSet.restrictTo s r).length ≤ s.length := by
+  refine ⟨by simp [RangeSet.restrictTo, Range.isEmpty], ?_⟩
   simp only [RangeSet.restrictTo]
   exact Nat.le_trans (List.length_filter_le _ _) (by simp)
 
-theorem rangeset_filter (s : List Range) (r : Range) (y : Range) :
+theorem rangeset_filter (s : List (Range α)) (r : Range α) (y : Range α) :
     y ∈ RangeSet.filterWithin s r ↔ y ∈ s ∧ r.b ≤ y.b ∧ y.e ≤ r.e := by
   simp [RangeSet.filterWithin, List.mem_filter, Range.contains]
 
-/-! ## non-vacuity: concrete states meeting the hypotheses -/
+def rsStep (s : List (Range α)) : Op α → List (Range α)
+  | .add a b => RangeSet.addRange s (Range.make a b)
+  | .restrict a b => RangeSet.restrictTo s (Range.make a b)
+  | .filter a b => RangeSet.filterWithin s (Range.make a b)
+  | .clear => RangeCollection.clear s
 
-example : MultiRange.Inv [⟨1, 3⟩, ⟨3, 5⟩, ⟨7, 9⟩] ∧ Arg (Range.make 8 2) := by
-  refine ⟨⟨by intro x hx; simp at hx; rcases hx with h | h | h <;> subst h <;> decide, ?_⟩, by unfold Arg; decide⟩
-  simp [R]
-example : run [.add 1 5, .add 7 9, .add 4 8, .restrict 2 3] = [⟨2, 3⟩] := by decide
-example : Disj ⟨0, 0⟩ ⟨0, 3⟩ ∧ Disj ⟨0, 3⟩ ⟨5, 6⟩ ∧ Disj ⟨0, 0⟩ ⟨5, 6⟩ := by unfold Disj; decide
+/-- the independent description of a range set: the list of (begin,end) pairs, each added range
+appended if non-empty, each restriction replacing every element by its intersection
+`[max b b', min e e'[` and dropping it when that is empty, each filter keeping the elements inside
+the window -/
+def rsSpecStep (s : List (Range α)) : Op α → List (Range α)
+  | .add a b => if a = b then s else s ++ [⟨min a b, max a b⟩]
+  | .restrict a b => s.filterMap (fun x =>
+      let lo := max x.b (min a b); let hi := min x.e (max a b)
+      if lo < hi then some ⟨lo, hi⟩ else none)
+  | .filter a b => s.filter (fun x => decide (min a b ≤ x.b) && decide (x.e ≤ max a b))
+  | .clear => []
+
+def RangeSetKeeps (ops : List (Op α)) : Prop :=
+  ops.foldl rsStep [] = ops.foldl rsSpecStep [] ∧ ∀ x ∈ ops.foldl rsStep [], x.b < x.e
+
+/-- **rangeset_keeps**: for every history a range set holds, in insertion order and with
+multiplicity, every non-empty range that was added, restricted and filtered individually; all
+its elements are non-empty well-formed ranges -/
+theorem rangeset_keeps (ops : List (Op α)) : RangeSetKeeps ops := by
+  unfold RangeSetKeeps
+  suffices h : ∀ s : List (Range α), (∀ x ∈ s, x.b < x.e) →
+      ops.foldl rsStep s = ops.foldl rsSpecStep s ∧ ∀ x ∈ ops.foldl rsStep s, x.b < x.e from
+    h [] (by simp)
+  induction ops with
+  | nil => intro s hs; exact ⟨rfl, hs⟩
+  | cons o os ih =>
+    intro s hs
+    simp only [List.foldl_cons]
+    have key : rsStep s o = rsSpecStep s o ∧ ∀ x ∈ rsStep s o, x.b < x.e := by
+      cases o with
+      | add a b =>
+        have hw := make_wf a b
+        simp only [rsStep, rsSpecStep, RangeSet.addRange, Range.isEmpty, clone_eq]
+        by_cases hab : a = b
+        · subst hab
+          have : (Range.make a a).b = (Range.make a a).e := by grind
+          simp [this]; exact hs
+        · have : (Range.make a b).b ≠ (Range.make a b).e := by grind
+          simp only [this, decide_false, Bool.false_eq_true, ↓reduceIte, hab]
+          refine ⟨by simp [Range.make], ?_⟩
+          intro x hx
+          rcases List.mem_append.mp hx with e | e
+          · exact hs x e
+          · simp at e; subst e; grind
+      | restrict a b =>
+        have hw := make_wf a b
+        simp only [rsStep, rsSpecStep, RangeSet.restrictTo]
+        constructor
+        · have pw : ∀ x : Range α, x.b < x.e →
+              (let lo := max x.b (min a b); let hi := min x.e (max a b)
+               if lo < hi then some (⟨lo, hi⟩ : Range α) else none) =
+              if (x.sliceWith (Range.make a b)).b = (x.sliceWith (Range.make a b)).e then none
+              else some (x.sliceWith (Range.make a b)) := by
+            intro x hx'
+            cases x
+            simp only [Range.make, MinMaxLaws.min_def, MinMaxLaws.max_def, Range.sliceWith, Range.overlap] at *
+            grind
+          have gen : ∀ t : List (Range α), (∀ x ∈ t, x.b < x.e) →
+              (t.map (·.sliceWith (Range.make a b))).filter (fun x => !x.isEmpty) =
+              t.filterMap (fun x => let lo := max x.b (min a b); let hi := min x.e (max a b)
+                if lo < hi then some (⟨lo, hi⟩ : Range α) else none) := by
+            intro t
+            induction t with
+            | nil => intro _; rfl
+            | cons x xs ih =>
+              intro ht
+              have ihx := ih (fun y hy => ht y (by simp [hy]))
+              have px := pw x (ht x (by simp))
+              simp only [List.map_cons, List.filter_cons, List.filterMap_cons, Range.isEmpty] at ihx ⊢
+              rw [px, ihx]
+              split <;> simp_all
+          exact gen s hs
+        · intro y hy
+          simp only [List.mem_filter, List.mem_map, Range.isEmpty] at hy
+          obtain ⟨⟨x, hx, e⟩, hne⟩ := hy
+          have hx' := hs x hx
+          have hsl := slice_spec x (Range.make a b) (by grind) hw.1
+          subst e
+          have : ¬ ((x.sliceWith (Range.make a b)).b = (x.sliceWith (Range.make a b)).e) := by simpa using hne
+          grind
+      | filter a b =>
+        simp only [rsStep, rsSpecStep, RangeSet.filterWithin, Range.contains, Range.make]
+        exact ⟨rfl, fun x hx => hs x (List.mem_filter.mp hx).1⟩
+      | clear => simp [rsStep, rsSpecStep, RangeCollection.clear]
+    obtain ⟨k1, k2⟩ := key
+    rw [k1] at k2 ⊢
+    exact ih (rsSpecStep s o) k2
+
+end
 
 end Bpp.C20
